@@ -81,6 +81,10 @@ CHECKS = {
    technique="HostFS.tla (POSIX-like tree with inodes and open descriptors) checked by TLC and used to generate request sequences; three-way replay: ufs behind SFileSys, equivalent direct OS calls on a twin directory (the oracle), and the model",
    text="Each model step (create, mkdir, open r/w/rw +- truncate, read, write at offsets incl. beyond the end, truncate, chmod, rename, remove, clunk, walk) is executed through a ufs session and as the equivalent os call on a twin directory; after every step the two host trees must be equal (names, kinds, contents, permission bits), data read through the fid must equal the twin file's data at that offset, and stat / listing through freshly walked fids must match os.Stat / os.ReadDir of the twin. Model-vs-twin disagreement is reported as model_drift only.",
    note="Trusted: the twin mapping of requests to OS calls in engines/ufs.go. Operations on fids whose path another fid removed / renamed / re-created are not generated (no equivalent OS operation is defined for a dangling fid). Runs as root with umask 0: permission denials are not exercised."),
+ "C09": dict(engine="stack", cat="model_checking", ref="5 C09",
+   technique="TLA+ model of the five client/server loops over two bounded pipes (Pipeline.tla) checked by TLC for circular waits, with the coupled-write toggle; per-method mapping with wire limits (CallMap.tla) evaluated by TLC into vectors; both bound to the real CSession <-> ServeConn(SSession(S)) stack with a recording session",
+   text="Pipeline.tla shows by exhaustive search that the as-is design deadlocks exactly when N >= 5 + 2K calls are in flight over pipes buffering K messages and that a separate client writer removes the cycle; CallMap.tla states what S must see and the caller must get incl. the read/write clipping at msize-11 / msize-23, EOF and short-write conventions, the 16-name walk limit, 64-bit offsets, second-granular times and errors by text. The harness runs 1527 vectors through the real stack comparing S's recorded arguments and the caller's results exactly, then 2..32 concurrent callers (own result each, all complete) over a 1 MiB pipe and 4 over an unbuffered one, and replays the model's counterexample (16 callers, unbuffered) which reproduces the known finding.",
+   note="Trusted: CallMap.tla as the reading of 'documented wire limits'; the recording session. Known finding (not repaired): coupled-write-cycle, see KNOWN_FINDINGS.txt. Race detector on the stack in the thorough tier."),
 }
 
 NA_REASON = "check not built yet in this round; planned per DESIGN.md section 5 (specification exists or is planned, no verdict is claimed)"
